@@ -16,7 +16,7 @@ from engine import (lit, Ref, Agg, RString, RVec, Slice, is_sym, str_eq, b_and, 
 from explore import expect, conc, Violation
 
 PROPERTY = 'C20'
-BUDGET = {'quick': 900, 'thorough': 3000}
+BUDGET = {'quick': 900, 'thorough': 1500}
 BOUNDS = {'quick': dict(n=2), 'thorough': dict(n=3)}
 ASSUMPTIONS = [
     'entry names: a typed prefix `f` followed by n fully symbolic characters (every scalar except `/` and NUL), so every special character appears in the completed part; the typed prefix itself is plain (a user types special prefix characters already escaped - that is escaped_word_start\'s domain, C05)',
